@@ -197,20 +197,34 @@ theorem eofcreateI_kept (s : IState) : KOutcome s (eofcreateI s) := by
     dsimp only
     refine keep_bind (by keep_prim) (fun c s1 h1 _ => ?_)
     cases c.containers[idx]? with
-    | none => (try dsimp only); keep_auto
-    | some sub => (try dsimp only); keep_auto
+    | none => exact keep_faultWith _
+    | some sub =>
+      (try dsimp only)
+      generalize subcontainerOk sub = okb
+      refine keep_bind (by keep_prim) (fun q s2 h2 _ => ?_)
+      obtain ⟨a, b⟩ := q
+      (try dsimp only)
+      refine keep_bind (Q := T) (by split <;> keep_prim) (fun input s3 h3 _ => ?_)
+      cases okb with
+      | false => exact keep_faultWith _
+      | true =>
+        simp only [Bool.not_true, Bool.false_eq_true, if_false]
+        refine keep_bind (by keep_prim) (fun _ s4 h4 _ => ?_)
+        refine keep_bind (keep_getS h4) (fun x s5 h5 _ => ?_)
+        exact keep_pure h5 trivial
   · obtain ⟨value, sub, input⟩ := b
-    dsimp only
     refine keep_bind (keep_getS h) (fun x s1 h1 hx => ?_)
     obtain ⟨rfl, rfl⟩ := hx
-    (try dsimp only)
+    generalize Gas.remaining63of64 s1.gas = gl
     refine keep_bind (keep_gasCharge h1 _) (fun _ s2 h2 hq2 => ?_)
     refine keep_bind (keep_advancePc_gas h2 1) (fun _ s3 h3 hg3 => ?_)
-    refine keep_pure h3 ?_
-    show s3.gas.remaining + Gas.remaining63of64 s1.gas ≤ s.gas.remaining
-    rw [hg3]
-    have := h1.rem
-    omega
+    have hfin : s3.gas.remaining + gl ≤ s.gas.remaining := by
+      rw [hg3]; have := h1.rem; omega
+    have hp : ∀ i : EofCreateInputs, i.gasLimit = gl → Paid s (Action.eofCreate i) s3 := by
+      intro i hi
+      show s3.gas.remaining + i.gasLimit ≤ s.gas.remaining
+      rw [hi]; exact hfin
+    exact keep_pure h3 (hp _ rfl)
 
 end
 end Revm.Proofs.EvmLink
